@@ -262,8 +262,8 @@ Qed.
 (* ------------------------------------------------------------------------------------------ *)
 (* the call sites                                                                               *)
 (* ------------------------------------------------------------------------------------------ *)
-Definition valid_nproc (P : parallel_glue) (np : nproc) (ncpu : nat) : Prop :=
-  is_serial P np = true \/ 1 <= workers P np ncpu.
+Definition valid_nproc (P : parallel_glue) (np : nproc) (ncpu ntasks : nat) : Prop :=
+  is_serial P np = true \/ 1 <= workers P np ncpu ntasks.
 
 Section CallSites.
   Variables A C : Type.
@@ -274,13 +274,13 @@ Section CallSites.
   Theorem mapped_par_eq_ser np ncpu sigma xs :
     p_gather P = GatherByIndex ->
     p_parallel_filters_none P = p_serial_filters_none P ->
-    valid_nproc P np ncpu ->
+    valid_nproc P np ncpu (length xs) ->
     mapped is_none P f f np ncpu sigma xs = Done (keep is_none (p_serial_filters_none P) (map f xs)).
   Proof.
     intros Hg Hf Hv. unfold mapped.
     destruct (is_serial P np) eqn:Hs; [reflexivity|].
     destruct Hv as [Hv|Hv]; [congruence|].
-    destruct (Nat.eqb (workers P np ncpu) 0) eqn:Hz; [apply Nat.eqb_eq in Hz; lia|].
+    destruct (Nat.eqb (workers P np ncpu (length xs)) 0) eqn:Hz; [apply Nat.eqb_eq in Hz; lia|].
     rewrite Hg. simpl. rewrite pool_map_schedule_free by exact Hv. rewrite Hf. reflexivity.
   Qed.
 
@@ -288,13 +288,13 @@ Section CallSites.
   Corollary mapped_independent np1 np2 ncpu1 ncpu2 sigma1 sigma2 xs :
     p_gather P = GatherByIndex ->
     p_parallel_filters_none P = p_serial_filters_none P ->
-    valid_nproc P np1 ncpu1 -> valid_nproc P np2 ncpu2 ->
+    valid_nproc P np1 ncpu1 (length xs) -> valid_nproc P np2 ncpu2 (length xs) ->
     mapped is_none P f f np1 ncpu1 sigma1 xs = mapped is_none P f f np2 ncpu2 sigma2 xs.
   Proof. intros Hg Hf H1 H2. rewrite !mapped_par_eq_ser by assumption. reflexivity. Qed.
 
   (* a worker count of zero is rejected by the pool (ValueError), as in the implementation *)
   Lemma mapped_zero_workers np ncpu sigma xs :
-    is_serial P np = false -> workers P np ncpu = 0 ->
+    is_serial P np = false -> workers P np ncpu (length xs) = 0 ->
     mapped is_none P f f np ncpu sigma xs = Failed BadWorkerCount.
   Proof. intros Hs Hw. unfold mapped. rewrite Hs, Hw. reflexivity. Qed.
 End CallSites.
@@ -319,7 +319,7 @@ Section OptionsState.
   Theorem mapped_with_options_par_eq_ser o np ncpu sigma xs :
     p_gather P = GatherByIndex ->
     p_parallel_filters_none P = p_serial_filters_none P ->
-    valid_nproc P np ncpu ->
+    valid_nproc P np ncpu (length xs) ->
     mapped_with_options is_none P true task o np ncpu sigma xs
     = Done (keep is_none (p_serial_filters_none P) (map (fun x => fst (task o x)) xs), o).
   Proof.
@@ -327,7 +327,7 @@ Section OptionsState.
     destruct (is_serial P np) eqn:Hs.
     - rewrite serial_tasks_copying. reflexivity.
     - destruct Hv as [Hv|Hv]; [congruence|].
-      destruct (Nat.eqb (workers P np ncpu) 0) eqn:Hz; [apply Nat.eqb_eq in Hz; lia|].
+      destruct (Nat.eqb (workers P np ncpu (length xs)) 0) eqn:Hz; [apply Nat.eqb_eq in Hz; lia|].
       rewrite Hg. simpl. rewrite pool_map_schedule_free by exact Hv. rewrite Hf.
       f_equal. f_equal. f_equal. apply map_ext. intros x. unfold call_task. destruct (task o x); reflexivity.
   Qed.
@@ -351,3 +351,49 @@ Theorem shared_options_refuted :
     mapped_with_options none_nat plain_glue false setdefault_task None (NPInt 2) 4 sigma [1; 2]
       = Done ([Some 1; Some 2], None).
 Proof. exists [1; 0]. split; vm_compute; reflexivity. Qed.
+
+(* ------------------------------------------------------------------------------------------ *)
+(* tasks that may write into their argument                                                     *)
+(* ------------------------------------------------------------------------------------------ *)
+Section ArgumentsState.
+  Variables A C : Type.
+  Variable is_none : C -> bool.
+  Variable P : parallel_glue.
+  Variable task : A -> C * A.
+
+  Theorem mapped_with_arguments_par_eq_ser np ncpu sigma xs :
+    p_gather P = GatherByIndex ->
+    p_parallel_filters_none P = p_serial_filters_none P ->
+    valid_nproc P np ncpu (length xs) ->
+    mapped_with_arguments is_none P true task np ncpu sigma xs
+    = Done (keep is_none (p_serial_filters_none P) (map (fun x => fst (task x)) xs), xs).
+  Proof.
+    intros Hg Hf Hv. unfold mapped_with_arguments.
+    destruct (is_serial P np) eqn:Hs.
+    - unfold argument_after. rewrite map_id. reflexivity.
+    - destruct Hv as [Hv|Hv]; [congruence|].
+      destruct (Nat.eqb (workers P np ncpu (length xs)) 0) eqn:Hz; [apply Nat.eqb_eq in Hz; lia|].
+      rewrite Hg. simpl. rewrite pool_map_schedule_free by exact Hv. rewrite Hf. reflexivity.
+  Qed.
+End ArgumentsState.
+
+(* fitting in place: the task overwrites the object it is handed with its result.  Serially the caller's
+   candidates are overwritten, with two processes they are not *)
+Definition in_place_task (x : nat) : option nat * nat := (Some (x + 10), x + 10).
+
+Theorem shared_arguments_refuted :
+  exists (sigma : list nat),
+    mapped_with_arguments none_nat plain_glue false in_place_task (NPInt 1) 4 sigma [1; 2]
+      = Done ([Some 11; Some 12], [11; 12]) /\
+    mapped_with_arguments none_nat plain_glue false in_place_task (NPInt 2) 4 sigma [1; 2]
+      = Done ([Some 11; Some 12], [1; 2]).
+Proof. exists [1; 0]. split; vm_compute; reflexivity. Qed.
+
+(* a worker count capped by the number of tasks without a lower bound asks the pool for zero workers when there
+   is nothing to do: "auto" fails where every explicit count returns the empty result *)
+Theorem capped_workers_refuted :
+  let P := {| p_serial_when := 1; p_max_workers := MWAutoCapped; p_gather := GatherByIndex;
+              p_serial_filters_none := true; p_parallel_filters_none := true |} in
+  mapped none_nat P (fun x : nat => Some x) (fun x => Some x) NPAuto 8 [] [] = Failed BadWorkerCount /\
+  mapped none_nat P (fun x : nat => Some x) (fun x => Some x) (NPInt 2) 8 [] [] = Done [].
+Proof. split; vm_compute; reflexivity. Qed.
